@@ -165,6 +165,9 @@ def class_tables(facts):
                 continue            # a path that never asked about the mnemonic (labels, constants, the final refusal)
             if any(admits(facts, o.path, m) for m in table):
                 table_outcomes.setdefault(tname, []).append(o)
+                if o.kind == 'return' and (not o.cls or o.cls not in facts.classes):
+                    raise AnalysisError('parse_item: which item class is built for the mnemonics of {} is not understood ({})'.format(
+                        tname, o.cls or 'a value that is not a constructor call'))
                 if o.kind == 'return' and o.cls:
                     cls_tables.setdefault(o.cls, set()).add(tname)
     return cls_tables, table_outcomes
